@@ -3,6 +3,7 @@ package main
 // C14 (subscripts) and C16 (item methods).
 
 import (
+	"go/constant"
 	"fmt"
 	"go/token"
 	"go/types"
@@ -283,6 +284,68 @@ var ruleLast = &Rule{
 	},
 }
 
+// rangeTestBeforeTruncation: among the comparisons of x with constants that
+// hold on the way to its truncation, one that keeps out some x with
+// MinInt32-1 < x < MaxInt32+1 (whose truncation fits int32).
+func rangeTestBeforeTruncation(fs []Fact, x ssa.Value) string {
+	const hi, lo = 2147483648.0, -2147483649.0
+	for _, f := range fs {
+		bo, ok := f.Cond.(*ssa.BinOp)
+		if !ok {
+			continue
+		}
+		op := bo.Op
+		var k *ssa.Const
+		switch {
+		case stripConv(bo.X) == x:
+			k, _ = bo.Y.(*ssa.Const)
+		case stripConv(bo.Y) == x:
+			k, _ = bo.X.(*ssa.Const)
+			switch op { // K op x  ⇒  x op' K
+			case token.LSS:
+				op = token.GTR
+			case token.LEQ:
+				op = token.GEQ
+			case token.GTR:
+				op = token.LSS
+			case token.GEQ:
+				op = token.LEQ
+			}
+		}
+		if k == nil || k.Value == nil {
+			continue
+		}
+		kv, ok2 := constant.Float64Val(constant.ToFloat(k.Value))
+		if constant.ToFloat(k.Value).Kind() == constant.Unknown {
+			continue
+		}
+		_ = ok2
+		// the set of x that proceed to the conversion
+		truth := f.Truth
+		bad := false
+		switch op {
+		case token.GTR, token.GEQ: // x > K  /  x >= K
+			if truth {
+				bad = kv > lo // proceeds only above K: K must be at most MinInt32-1
+			} else {
+				bad = kv < hi // kept out above K: K must be at least MaxInt32+1
+			}
+		case token.LSS, token.LEQ:
+			if truth {
+				bad = kv < hi
+			} else {
+				bad = kv > lo
+			}
+		default:
+			continue
+		}
+		if bad {
+			return fmt.Sprintf("%s %s %v is %v on the way to the conversion", x.Name(), op, kv, truth)
+		}
+	}
+	return ""
+}
+
 var ruleTrunc = &Rule{
 	Name: "R-TRUNC", NeedSSA: true,
 	Doc: "the numeric-to-int32 conversion of subscript values truncates: the float64 → int64 conversions in the helper that turns an item into a subscript are applied to the item's own value (or its json.Number conversion), not to the result of a rounding function, and NaN/±Inf are rejected first",
@@ -318,12 +381,16 @@ var ruleTrunc = &Rule{
 						out.viol(key, p.pos(cv.Pos()), fnName(fn), "NaN/±Inf are not rejected before the conversion")
 						continue
 					}
+					if why := rangeTestBeforeTruncation(factsAt(b), x); why != "" {
+						out.viol(key, p.pos(cv.Pos()), fnName(fn), "a range test on the value before truncation diverts subscripts whose truncated value is a legal int32 position ("+why+"): the range must be judged on the truncated value, or against bounds one beyond the int32 limits")
+						continue
+					}
 					out.ok(key, p.pos(cv.Pos()), fnName(fn), "plain truncating conversion of the item's value after a finiteness check")
 				}
 			}
 		}
 		out.Counts["subscript_conversions"] = n
-		out.Floors["subscript_conversions"] = 2
+		out.Floors["subscript_conversions"] = 1
 		return out
 	},
 }
@@ -488,7 +555,7 @@ func init() {
 	register(ruleSelect, ruleLast, ruleTrunc, ruleMethodTypes)
 	addProp(&PropSpec{
 		ID:          "C14",
-		Rules:       []string{"R-SELECT", "R-LAST", "R-TRUNC", "R-F2I", "R-STATE", "R-MODEGUARD", "R-LAUNDER", "R-LISTINDEX", "R-SUBEVAL", "R-LITCHAIN"},
+		Rules:       []string{"R-SELECT", "R-LAST", "R-TRUNC", "R-F2I", "R-STATE", "R-MODEGUARD", "R-LAUNDER", "R-LISTINDEX", "R-SUBEVAL", "R-LITCHAIN", "R-EXECADDR"},
 		Explanation: "Selection by position as shapes of the subscript executor: the element loaded at array[i] reaches the continuation with no branch on its value; `last` is the recorded length minus one of the innermost subscripted array (recorded before the subscripts are evaluated, restored on every exit); subscript values are truncated, finiteness-checked and range-checked against int32; the out-of-bounds error is guarded by strictness; a failed subscript expression is never mistaken for index 0.",
 		Decided: []string{"R-SELECT: no value-dependent branch between array[i] and the continuation", "R-LAST: `last` = recorded size − 1; hard error outside a subscript",
 			"R-TRUNC + R-F2I: truncating conversion after a NaN/Inf check, int32 range test on the result", "R-STATE: innermost size restored on every exit",
@@ -498,7 +565,7 @@ func init() {
 	})
 	addProp(&PropSpec{
 		ID:          "C16",
-		Rules:       []string{"R-METHODTYPES", "R-F2I", "R-FINITE", "R-OVF", "R-TOWER", "R-STATE", "R-RADIX"},
+		Rules:       []string{"R-METHODTYPES", "R-F2I", "R-FINITE", "R-OVF", "R-TOWER", "R-STATE", "R-RADIX", "R-EMPTYPROD"},
 		Explanation: "Domains and ranges of the item methods as finite tables and guard discipline: for each of the 12 methods the set of item types that reach the continuation is computed by walking the method with the input type fixed (abstract interpretation) and compared with the documented domain, every other type must leave through a suppressible error; conversions to integers are range-guarded as evaluated in float64; computed doubles are finiteness-checked; integer callbacks cannot wrap; the numeric representations are handled together; no method arm is missing.",
 		Decided: []string{"R-METHODTYPES: accepted-type table of all 12 methods (156 cells) and suppressible rejection", "R-F2I: .integer()/.bigint() conversions are range-safe (2^63 included)",
 			"R-FINITE: .double()/.number()/.decimal() never yield Inf/NaN", "R-OVF: .abs() cannot wrap", "R-TOWER", "R-METHODTYPES also reports a method constant without an arm in the dispatcher"},
